@@ -240,8 +240,9 @@ generic containers of the same contents at every depth, and — through `unwrap`
 a drop (of any depth) or a pointer (not to a struct) with the value it stands for. For this
 relation the standard output layer (`stdOut_respects`), the standard comparisons
 (`opEq_prep_vrel`, `opLt_prep_vrel`, `opContains_prep_vrel`, `equal_prep_repEq`) and every standard
-filter except `uniq` respect it (`filterRespects_std`: exactly, all but `sort`, `uniq`,
-`sort_natural`; `filterRespects_std_upto`: up to `unmodelled`, all but `uniq`). Drops *inside*
+filter except those that observe the Go representation (`reprFilters`: `uniq`, and the value/debugging
+filters `json`, `inspect`, `type`) respect it (`filterRespects_std`: exactly, all but `sort`,
+`sort_natural` and `reprFilters`; `filterRespects_std_upto`: up to `unmodelled`, all but `reprFilters`). Drops *inside*
 containers are not covered for the standard configuration: see the counterexamples below. -/
 
 /-- **C18 for the standard configuration** (partial). `allowed` says which filters are registered
@@ -252,8 +253,10 @@ outside the model).
 
 Full statement wanted: the same for `stdPrims`, with equal results, for `ERel true`. What is missing,
 and why (each with an evaluated counterexample below):
-* `huniq` — `uniq` must not be registered: it does *not* respect the equivalence (it compares
-  elements by Go interface equality, which sees the element type of a nested slice);
+* `hrepr` — `uniq`, `json`, `inspect` and `type` must not be registered: they do *not* respect the
+  equivalence (`uniq` compares elements by Go interface equality, which sees the element type of a
+  nested slice; `type` prints the Go type; `json`/`inspect` marshal the Go value: a `[]uint8` is
+  base64 text, a `map[any]any` is rejected);
 * "agree" instead of "equal": a fixed-array needle against an ordered map with a fixed-array key is
   `unmodelled` (`comparableV`) while the generic slice gives `false`; `sort`/`sort_natural` answer
   `unmodelled` for more than 12 elements with ties that differ in their encoding (up to 12 elements —
@@ -261,7 +264,7 @@ and why (each with an evaluated counterexample below):
   `sortWith_rel_short`, `sortNaturalWith_rel_short`);
 * `d = false`: drops nested in containers are exposed by `fmt.Sprint` (printing a map, a string
   filter applied to an array), and a drop that yields a drop by `values.Equal`. -/
-theorem run_std_rep_independent_partial (allowed : Bytes → Bool) (huniq : allowed (ArrF.bn "uniq") = false)
+theorem run_std_rep_independent_partial (allowed : Bytes → Bool) (hrepr : ∀ n ∈ reprFilters, allowed n = false)
     (cfg : Cfg) (fs : FS) (fuel : Nat) (src : Bytes) (line : Nat) (env env' : Env)
     (he : ∀ x, ERel false (env.get x) (env'.get x)) :
     RunAgree true (run (stdPrimsOnly allowed) stdOut cfg fs fuel src line env)
@@ -269,20 +272,18 @@ theorem run_std_rep_independent_partial (allowed : Bytes → Bool) (huniq : allo
   refine run_rel _ _ cfg fs fuel (stdPrimsOnly_respects allowed ?_) (stdOut_respects true) src line he
   intro n _ ha
   refine filterRespects_std_upto n (fun hn => ?_)
-  simp only [List.mem_cons, List.not_mem_nil, or_false] at hn
-  subst hn
-  rw [huniq] at ha
+  rw [hrepr n hn] at ha
   cases ha
 
-/-- **C18 for the standard engine without `uniq`**: no hypothesis left. Every template, every file
-system and include depth: environments that differ in typed vs generic slices, fixed arrays vs
-slices, typed vs generic maps (at any depth), and in drops and pointers around a binding, render to
-agreeing results. -/
-theorem run_std_rep_independent_without_uniq (cfg : Cfg) (fs : FS) (fuel : Nat) (src : Bytes) (line : Nat) (env env' : Env)
+/-- **C18 for the standard engine without `uniq`, `json`, `inspect`, `type`** (the filters that observe
+the Go representation): no hypothesis left. Every template, every file system and include depth:
+environments that differ in typed vs generic slices, fixed arrays vs slices, typed vs generic maps
+(at any depth), and in drops and pointers around a binding, render to agreeing results. -/
+theorem run_std_rep_independent_without_repr_filters (cfg : Cfg) (fs : FS) (fuel : Nat) (src : Bytes) (line : Nat) (env env' : Env)
     (he : ∀ x, ERel false (env.get x) (env'.get x)) :
-    RunAgree true (run (stdPrimsOnly withoutUniq) stdOut cfg fs fuel src line env)
-      (run (stdPrimsOnly withoutUniq) stdOut cfg fs fuel src line env') :=
-  run_std_rep_independent_partial withoutUniq (by simp [withoutUniq]) cfg fs fuel src line env env' he
+    RunAgree true (run (stdPrimsOnly withoutRepr) stdOut cfg fs fuel src line env)
+      (run (stdPrimsOnly withoutRepr) stdOut cfg fs fuel src line env') :=
+  run_std_rep_independent_partial withoutRepr (fun n hn => by simp [withoutRepr, hn]) cfg fs fuel src line env env' he
 
 /-- the output layer respects the equivalence exactly (no `unmodelled` escape) -/
 example (v v' : GoVal) (h : URel false v v') : stdOut.chunks v = stdOut.chunks v' :=
@@ -318,6 +319,26 @@ different results stated) -/
 (`uniqFilter` compares with `==` / `reflect.DeepEqual`: same dynamic type and contents). -/
 example : lenOfRes (stdPrims.applyFilter (ArrF.bn "uniq") (.slice .any [.slice (.int .int) [.int .int 1], .slice .any [.int .int 1]]) []) = 2 ∧
     lenOfRes (stdPrims.applyFilter (ArrF.bn "uniq") (.slice .any [.slice .any [.int .int 1], .slice .any [.int .int 1]]) []) = 1 := by
+  decide +kernel
+
+/-- *`type` prints the Go type.* Template `{{ a | type }}` with `a = []int{1}` prints `[]int`, with
+`a = []any{1}` it prints `[]interface {}` — the purpose of the filter. -/
+example : (match stdPrims.applyFilter (JsonF.bn "type") (.slice (.int .int) [.int .int 1]) [],
+                 stdPrims.applyFilter (JsonF.bn "type") (.slice .any [.int .int 1]) [] with
+    | .ok (.str a), .ok (.str b) => a == JsonF.bn "[]int" && b == JsonF.bn "[]interface {}"
+    | _, _ => false) = true := by
+  decide +kernel
+
+/-- *`json` (and `inspect`) marshal the Go value.* Template `{{ a | json }}` with `a = []uint8{1}`
+(a `[]byte`) prints `"AQ=="`, with `a = []any{uint8(1)}` it prints `[1]`; with `m = map[any]any{"a": 1}`
+it prints nothing (`json.Marshal` rejects the map type), with `m = map[string]any{"a": 1}` it prints `{"a":1}`. -/
+example : (match stdPrims.applyFilter (JsonF.bn "json") (.slice (.int .u8) [.int .u8 1]) [],
+                 stdPrims.applyFilter (JsonF.bn "json") (.slice .any [.int .u8 1]) [],
+                 stdPrims.applyFilter (JsonF.bn "json") (.map .any .any [(.str [97], .int .int 1)]) [],
+                 stdPrims.applyFilter (JsonF.bn "json") (.map .str .any [(.str [97], .int .int 1)]) [] with
+    | .ok (.str a), .ok (.str b), .ok (.str c), .ok (.str d) =>
+      a == [34, 65, 81, 61, 61, 34] && b == [91, 49, 93] && c == [] && d == [123, 34, 97, 34, 58, 49, 125]
+    | _, _, _, _ => false) = true := by
   decide +kernel
 
 /-- *`fmt.Sprint` shows a drop inside a map.* Template `{{ m }}` with `m = map[string]any{"a": Drop{1}}`
